@@ -5,6 +5,9 @@ cd "$(dirname "$0")"
 export CARGO_NET_OFFLINE=true
 mkdir -p target evidence
 python3 -c "import sys; sys.path.insert(0, '.'); from vlib import build; build.ensure('hooks', quiet=False)"
+if [ -f stubs/syncdelay.c ]; then
+  clang -O2 -shared -fPIC -o stubs/syncdelay.so stubs/syncdelay.c -ldl
+fi
 if [ -f stubs/writefault.c ]; then
   clang -O2 -shared -fPIC -o stubs/writefault.so stubs/writefault.c -ldl
 fi
